@@ -58,7 +58,7 @@ def probe_portfolio(spec):
         if opts.get('warmup'):
             # an earlier use of the same objects (other prices): a later set-up must not depend on it
             try:
-                pw = {k: v[::-1] * 0.5 + 1.0 for k, v in prices.items()}
+                pw = {k: (v[::-1] * 0.5 + 1.0 if k.startswith('p') else v) for k, v in prices.items()}
                 op0 = portf.setup_optim_problem(pw, tg)
                 if opts['warmup'] == 'solve':
                     op0.optimize()
@@ -405,4 +405,73 @@ def probe_reference(spec):
             o['ref']['eao_dispatch_in_reference'] = ref.check_dispatch(spec, disp)
         except Exception as e:
             o['ref']['eao_dispatch_in_reference'] = 'error: ' + repr(e)[:200]
+    return o
+
+
+# ------------------------------------------------------------------ C15: fixing a time window
+def probe_fixwindow(spec):
+    o = {}
+    opts = spec.get('opts', {})
+    fx = opts['fix']
+    try:
+        portf = mk_portfolio(spec)
+        tg = mk_grid(spec['grid'])
+        prices = mk_prices(spec)
+        op = portf.setup_optim_problem(prices, tg)
+        res = op.optimize()
+    except Exception as e:
+        return {'status': 'setup_error', 'error': repr(e)[:300]}
+    if isinstance(res, str):
+        return {'status': 'base not solved', 'solve': res}
+    o['status'] = 'ok'
+    o['problem'] = dump_problem(op)
+    o['T'] = int(tg.T)
+    o['x'] = [float(v) for v in res.x]
+    o['value'] = float(res.value)
+    T = tg.T
+    rs = np.random.RandomState(seed_of(spec, 'fix'))
+    k = int(fx.get('k', 0)) % max(T, 1)
+    if fx['mode'] == 'prefix':
+        I = np.arange(T) <= k
+        steps = [t for t in range(T) if t <= k]
+    elif fx['mode'] == 'subset':
+        I = rs.rand(T) < 0.5
+        steps = [t for t in range(T) if I[t]]
+    elif fx['mode'] == 'index':
+        steps = sorted(set(int(v) for v in rs.randint(0, T, size=max(1, T // 2))))
+        I = list(steps)
+    else:  # date: all steps whose time point is not after the date
+        d = tg.timepoints[k]
+        I = d
+        steps = [t for t in range(T) if tg.timepoints[t].value <= d.value]
+    o['steps'] = steps
+    o['mode'] = fx['mode']
+
+    def rebuilt(pr):
+        p2 = mk_portfolio(spec)
+        tg2 = mk_grid(spec['grid'])
+        fw = {'I': I.copy() if isinstance(I, np.ndarray) else I, 'x': res.x.copy()}
+        op2 = p2.setup_optim_problem(pr, tg2, fix_time_window=fw)
+        return op2
+    try:
+        op2 = rebuilt(mk_prices(spec))
+        o['fixed'] = dump_problem(op2)
+        r2 = op2.optimize()
+        o['solve2'] = r2 if isinstance(r2, str) else 'optimal'
+        if not isinstance(r2, str):
+            o['x2'] = [float(v) for v in r2.x]
+            o['value2'] = float(r2.value)
+    except Exception as e:
+        o['fixed_error'] = repr(e)[:300]
+        return o
+    try:
+        pr3 = {kk: (v[::-1] * 0.75 + 0.5 if kk.startswith('p') else v) for kk, v in mk_prices(spec).items()}   # capacities given by key stay
+        op3 = rebuilt(pr3)
+        r3 = op3.optimize()
+        o['solve3'] = r3 if isinstance(r3, str) else 'optimal'
+        if not isinstance(r3, str):
+            o['x3'] = [float(v) for v in r3.x]
+        o['fixed3_lu'] = [[float(v) for v in op3.l], [float(v) for v in op3.u]]
+    except Exception as e:
+        o['fixed3_error'] = repr(e)[:300]
     return o
